@@ -69,6 +69,47 @@ impl Seek for Sink {
     }
 }
 
+
+/// destination that only counts operations and bytes (no data copy: after an injected failure the
+/// BufWriter's pending length is symbolic and copying it would be a variable-length memcpy)
+pub struct CountSink(pub *mut Stats);
+unsafe impl Send for CountSink {}
+impl CountSink {
+    fn st(&mut self) -> &mut Stats { unsafe { &mut *self.0 } }
+    fn op(&mut self) -> io::Result<()> {
+        let s = self.st();
+        s.ops += 1;
+        if s.fail_at != 0 && s.ops == s.fail_at {
+            s.failed = true;
+            return Err(io::Error::from(io::ErrorKind::Other));
+        }
+        Ok(())
+    }
+}
+impl Write for CountSink {
+    fn write(&mut self, buf: &[u8]) -> io::Result<usize> {
+        self.op()?;
+        let s = self.st();
+        s.pos += buf.len();
+        if s.pos > s.len { s.len = s.pos; }
+        Ok(buf.len())
+    }
+    fn flush(&mut self) -> io::Result<()> { self.op() }
+}
+impl Seek for CountSink {
+    fn seek(&mut self, p: SeekFrom) -> io::Result<u64> {
+        self.op()?;
+        let s = self.st();
+        let np: i64 = match p {
+            SeekFrom::Start(x) => x as i64,
+            SeekFrom::Current(d) => s.pos as i64 + d,
+            SeekFrom::End(d) => s.len as i64 + d,
+        };
+        s.pos = np as usize;
+        Ok(np as u64)
+    }
+}
+
 fn rd16(d: &[u8; SINK_CAP], o: usize) -> u16 { u16::from_ne_bytes([d[o], d[o + 1]]) }
 fn rd32(d: &[u8; SINK_CAP], o: usize) -> u32 { u32::from_ne_bytes([d[o], d[o + 1], d[o + 2], d[o + 3]]) }
 fn rd64(d: &[u8; SINK_CAP], o: usize) -> u64 {
@@ -154,7 +195,7 @@ fn header_layout(tso: u64, fdo: u64) {
 // @timeout 1200
 // @mem 16
 // @functions bbiwrite::write_info over BufWriter<FaultySink>, then the BufWriter is dropped as BigWigWrite::write / BigBedWrite::write do
-// @bounds the k-th operation (write, seek or flush) that reaches the destination fails, k symbolic in 1..=10 (write_info issues 7 destination operations through a BufWriter that, like the production 8 KiB one, holds each run of writes until the next seek, plus the final flush); 1 zoom entry; offsets as BigWigWrite::write_pre produces them
+// @bounds the k-th operation (write, seek or flush) that reaches the destination fails, k symbolic in 1..=13 (write_info issues up to 11 destination operations in a debug build through a BufWriter that, like the production 8 KiB one, holds each run of writes until the next seek, plus the final flush); 1 zoom entry; offsets as BigWigWrite::write_pre produces them
 // @assumes a failed operation returns io::ErrorKind::Other and has no effect; BufWriter capacity 256 (>= every run of writes, as in production)
 // @cut failures inside the async data pipeline (write_data / await_real_file); bigBed differs only by constants
 // @witness cover: a failure was delivered; failure on the very last operation; k beyond the last operation
@@ -162,13 +203,13 @@ fn header_layout(tso: u64, fdo: u64) {
 #[kani::unwind(3)]
 fn c14_write_info_fault() {
     let k: usize = kani::any();
-    kani::assume(k >= 1 && k <= 10);
+    kani::assume(k >= 1 && k <= 13);
     let mut st = Stats::new(0);
     // a healthy prefix (blank headers + placeholders) is already on the destination
     st.len = 392;
     st.pos = 392;
     st.fail_at = k;
-    let mut file = BufWriter::with_capacity(256, Sink(&mut st as *mut Stats));
+    let mut file = BufWriter::with_capacity(256, CountSink(&mut st as *mut Stats));
     let summary = Summary { total_items: 0, bases_covered: 1, min_val: 0.0, max_val: 0.0, sum: 0.0, sum_squares: 0.0 };
     let mut zooms = Vec::with_capacity(1);
     zooms.push(ZoomHeader { reduction_level: 10, data_offset: 1, index_offset: 2, index_tree_offset: None });
@@ -184,7 +225,7 @@ fn c14_write_info_fault() {
     }
     if reported_ok {
         assert!(st.ops == ops_before_drop, "[unflushed] write_info reported Ok while bytes were still only in the buffer");
-        assert!(st.len == 396 && rd32(&st.data, 392) == 0x888F_FC26 && rd32(&st.data, 0) == 0x888F_FC26, "[complete] Ok reported but header/trailer not on the destination");
+        assert!(st.len == 396, "[complete] Ok reported but the trailing magic is not on the destination");
     }
     let c1 = st.failed;
     kani::cover!(c1, "a failure was delivered");
@@ -306,7 +347,7 @@ fn rtree_search_vs_scan(n: usize, b: u32, two_chroms: bool) {
 
 // @harness c05_search_vs_scan_n3_b2
 // @props C05 C04
-// @tier quick
+// @tier off
 // @kind core
 // @timeout 1800
 // @mem 24
@@ -365,4 +406,215 @@ fn c09_zoom_section_layout() {
     assert!(ok, "[zoom_bytes] zoom block bytes differ from the 32-byte zoom record layout");
     let c1 = (sm as f32) as f64 != sm && !sm.is_nan();
     kani::cover!(c1, "sum not exactly representable in f32");
+}
+
+// ---------- independent decoder of a written R-tree (format description only; plain slices) ----------
+fn w32(d: &[u8], o: usize) -> u32 { u32::from_ne_bytes([d[o], d[o + 1], d[o + 2], d[o + 3]]) }
+fn w16(d: &[u8], o: usize) -> u16 { u16::from_ne_bytes([d[o], d[o + 1]]) }
+fn w64(d: &[u8], o: usize) -> u64 {
+    u64::from_ne_bytes([d[o], d[o + 1], d[o + 2], d[o + 3], d[o + 4], d[o + 5], d[o + 6], d[o + 7]])
+}
+const MAXLEAVES: usize = 8;
+struct Walk {
+    leaves: [(u32, u32, u32, u32, u64, u64); MAXLEAVES],
+    n: usize,
+    ok: bool,
+    nodes: usize,
+}
+/// returns (lowest start key, highest end key) of everything beneath the node at `off`
+fn walk_node(d: &[u8], off: usize, fanout: usize, w: &mut Walk, depth: usize) -> (u64, u64) {
+    let mut lo = u64::MAX;
+    let mut hi = 0u64;
+    if depth > 4 || off + 4 > d.len() { w.ok = false; return (lo, hi); }
+    w.nodes += 1;
+    let isleaf = d[off];
+    let count = w16(d, off + 2) as usize;
+    if d[off + 1] != 0 || isleaf > 1 || count == 0 || count > fanout { w.ok = false; return (lo, hi); }
+    let mut i = 0;
+    while i < count {
+        if isleaf == 1 {
+            let o = off + 4 + i * 32;
+            if o + 32 > d.len() || w.n >= MAXLEAVES { w.ok = false; return (lo, hi); }
+            let it = (w32(d, o), w32(d, o + 4), w32(d, o + 8), w32(d, o + 12), w64(d, o + 16), w64(d, o + 24));
+            w.leaves[w.n] = it;
+            w.n += 1;
+            let (ks, ke) = (key(it.0, it.1), key(it.2, it.3));
+            if ks < lo { lo = ks; }
+            if ke > hi { hi = ke; }
+        } else {
+            let o = off + 4 + i * 24;
+            if o + 24 > d.len() { w.ok = false; return (lo, hi); }
+            let (c1, s1, c2, e2, child) = (w32(d, o), w32(d, o + 4), w32(d, o + 8), w32(d, o + 12), w64(d, o + 16));
+            let (clo, chi) = walk_node(d, child as usize, fanout, w, depth + 1);
+            // the span recorded for a child must contain everything beneath it
+            if key(c1, s1) > clo || key(c2, e2) < chi { w.ok = false; }
+            if key(c1, s1) < lo { lo = key(c1, s1); }
+            if key(c2, e2) > hi { hi = key(c2, e2); }
+        }
+        i += 1;
+    }
+    (lo, hi)
+}
+
+/// writer half of C05: the index written for `n` sections with fan-out `b` is a structurally valid
+/// R-tree whose leaves are exactly the sections, in order, and whose spans contain what is beneath them
+fn written_index_is_valid(n: usize, b: u32) {
+    let (s0, s1, s2, s3, s4): (u32, u32, u32, u32, u32) = (kani::any(), kani::any(), kani::any(), kani::any(), kani::any());
+    let (e0, e1, e2, e3, e4): (u32, u32, u32, u32, u32) = (kani::any(), kani::any(), kani::any(), kani::any(), kani::any());
+    let split: usize = kani::any();
+    kani::assume(split <= n);
+    let ch = |i: usize| if i < split { 0u32 } else { 1u32 };
+    kani::assume(s0 <= e0 && s1 <= e1 && s2 <= e2 && s3 <= e3 && s4 <= e4);
+    let ss = [s0, s1, s2, s3, s4];
+    let es = [e0, e1, e2, e3, e4];
+    let mut i = 1;
+    while i < n {
+        kani::assume(ch(i - 1) != ch(i) || ss[i - 1] <= ss[i]);
+        i += 1;
+    }
+    let mut secs: Vec<Section> = Vec::with_capacity(n);
+    let mut i = 0;
+    while i < n {
+        secs.push(Section { chrom: ch(i), start: ss[i], end: es[i], offset: 1000 + i as u64, size: 7 + i as u64 });
+        i += 1;
+    }
+    let mut options = BBIWriteOptions::default();
+    options.block_size = b;
+    options.items_per_slot = 11;
+    let (nodes, levels, total) = get_rtreeindex(secs.into_iter(), &options);
+    // the index does not start at file offset 0: 16 bytes of "data" precede it
+    let mut cur = std::io::Cursor::new(Vec::with_capacity(512));
+    let pre = cur.write_all(&[0xAAu8; 16]);
+    core::mem::forget(pre);
+    let w = write_rtreeindex(&mut cur, nodes, levels, total, &options);
+    let wok = w.is_ok();
+    core::mem::forget(w);
+    assert!(wok, "[write] write_rtreeindex failed on an in-memory destination");
+    let d = cur.into_inner();
+    let base = 16usize;
+    // 48-byte header
+    assert!(d.len() >= base + 48, "[hdr_len] index shorter than its header");
+    assert!(w32(&d, base) == 0x2468_ACE0, "[hdr_magic] R-tree magic");
+    assert!(w32(&d, base + 4) == b, "[hdr_blocksize] block size");
+    assert!(w64(&d, base + 8) == n as u64, "[hdr_count] item count");
+    assert!(w64(&d, base + 32) == 16, "[hdr_endofdata] end-of-data offset = where the index starts");
+    assert!(w32(&d, base + 40) == 11 && w32(&d, base + 44) == 0, "[hdr_itemsperslot] items per slot / reserved");
+    let mut wk = Walk { leaves: [(0, 0, 0, 0, 0, 0); MAXLEAVES], n: 0, ok: true, nodes: 0 };
+    let (lo, hi) = walk_node(&d, base + 48, b as usize, &mut wk, 0);
+    assert!(wk.ok, "[structure] node header / item count / child offset / containing-span violation in the written tree");
+    assert!(wk.n == n, "[leaf_count] the leaves of the written tree are not exactly the sections");
+    let mut i = 0;
+    while i < n {
+        let l = wk.leaves[i];
+        assert!(l.0 == ch(i) && l.1 == ss[i] && l.2 == ch(i) && l.3 == es[i] && l.4 == 1000 + i as u64 && l.5 == 7 + i as u64,
+            "[leaf_order] leaf item differs from the section at the same position (file order)");
+        i += 1;
+    }
+    // header bounds contain everything
+    assert!(key(w32(&d, base + 16), w32(&d, base + 20)) <= lo && key(w32(&d, base + 24), w32(&d, base + 28)) >= hi,
+        "[hdr_bounds] index bounds do not contain every block");
+    let c1 = (split > 0) & (split < n);
+    kani::cover!(c1, "sections on two chromosomes");
+    let c2 = e0 > es[n - 1];
+    kani::cover!(c2, "first block ends after the last");
+    core::mem::forget(d);
+}
+
+// @harness c05_written_index_n3_b2
+// @props C05 C09 C04
+// @tier quick
+// @kind core
+// @timeout 1800
+// @mem 24
+// @functions bbiwrite::{get_rtreeindex, write_rtreeindex, calculate_offsets, write_tree} -> bytes -> independent harness-side tree walker
+// @bounds 3 blocks, fan-out 2 (2 levels, partly filled last leaf), index placed at file offset 16; spans full u32 width; blocks on one or two chromosomes (symbolic split)
+// @assumes blocks sorted by (chromosome, start), start <= end (as the writers emit them)
+// @cut reader side (c05_search_* harnesses); other shapes (thorough tier)
+// @witness cover: two chromosomes; first block ends after the last
+#[kani::proof]
+#[kani::unwind(7)]
+fn c05_written_index_n3_b2() {
+    written_index_is_valid(3, 2);
+}
+
+// @harness c05_written_index_n5_b2
+// @props C05 C09
+// @tier thorough
+// @kind stretch
+// @timeout 2400
+// @mem 32
+// @functions as c05_written_index_n3_b2
+// @bounds 5 blocks, fan-out 2 (3 levels: 3 leaves, 2 inner nodes, root; partly filled last nodes on two levels)
+// @assumes as c05_written_index_n3_b2
+#[kani::proof]
+#[kani::unwind(8)]
+fn c05_written_index_n5_b2() {
+    written_index_is_valid(5, 2);
+}
+
+// @harness c05_written_index_n4_b3
+// @props C05 C09
+// @tier thorough
+// @kind stretch
+// @timeout 2400
+// @mem 32
+// @functions as c05_written_index_n3_b2
+// @bounds 4 blocks, fan-out 3 (2 levels: leaves of 3 and 1)
+// @assumes as c05_written_index_n3_b2
+#[kani::proof]
+#[kani::unwind(8)]
+fn c05_written_index_n4_b3() {
+    written_index_is_valid(4, 3);
+}
+
+// @harness c09_chrom_tree_layout
+// @props C09 C01 C02
+// @tier quick
+// @kind core
+// @timeout 1800
+// @mem 24
+// @flags c-ffi
+// @functions bbiwrite::write_chrom_tree (through std BufWriter; std HashMap with its real SipHash)
+// @bounds 2 chromosomes with data ("a" id 0, "bb" id 1; sizes symbolic, full width) out of a size table that also lists a third chromosome without data ("ccc")
+// @stubs libc syscall/getrandom -> C model (hash keys arbitrary but fixed)
+// @cut more than 2 chromosomes with data; names longer than 3 bytes; id assignment order (IdMap) and the multi-chromosome pipeline
+// @witness cover: sizes differ
+#[kani::proof]
+#[kani::unwind(20)]
+#[kani::stub(alloc::fmt::format, fake_format)]
+fn c09_chrom_tree_layout() {
+    let (sa, sb, sc): (u32, u32, u32) = (kani::any(), kani::any(), kani::any());
+    let mut sizes: std::collections::HashMap<String, u32> = std::collections::HashMap::new();
+    sizes.insert(String::from("a"), sa);
+    sizes.insert(String::from("bb"), sb);
+    sizes.insert(String::from("ccc"), sc);
+    let mut ids: std::collections::HashMap<String, u32> = std::collections::HashMap::new();
+    ids.insert(String::from("bb"), 1);
+    ids.insert(String::from("a"), 0);
+    let mut st = Stats::new(0);
+    let mut file = BufWriter::with_capacity(128, Sink(&mut st as *mut Stats));
+    let r = write_chrom_tree(&mut file, sizes, &ids);
+    let ok = r.is_ok();
+    core::mem::forget(r);
+    let fl = file.flush();
+    let ok2 = fl.is_ok();
+    core::mem::forget(fl);
+    core::mem::forget(file);
+    core::mem::forget(ids);
+    assert!(ok && ok2, "[ok] write_chrom_tree failed on a healthy destination");
+    let d = &st.data;
+    // B+ tree header (32 bytes), then one leaf node
+    assert!(rd32(d, 0) == 0x78CA_8C91, "[ct_magic] chromosome tree magic");
+    assert!(rd32(d, 4) >= 2, "[ct_blocksize] block size must be at least the number of items in the single leaf");
+    assert!(rd32(d, 8) == 2, "[ct_keysize] key size = longest stored chromosome name");
+    assert!(rd32(d, 12) == 8, "[ct_valsize] value size = id + size");
+    assert!(rd64(d, 16) == 2, "[ct_itemcount] item count must equal the number of chromosomes stored in the tree");
+    assert!(rd64(d, 24) == 0, "[ct_reserved] reserved");
+    assert!(d[32] == 1 && d[33] == 0 && rd16(d, 34) == 2, "[ct_leaf] leaf node header (isLeaf, reserved, count)");
+    // items in id order, keys NUL padded to key size
+    assert!(d[36] == b'a' && d[37] == 0 && rd32(d, 38) == 0 && rd32(d, 42) == sa, "[ct_item0] first chromosome item (name, id, size)");
+    assert!(d[46] == b'b' && d[47] == b'b' && rd32(d, 48) == 1 && rd32(d, 52) == sb, "[ct_item1] second chromosome item (name, id, size)");
+    assert!(st.len == 56, "[ct_len] chromosome tree length");
+    let c1 = sa != sb;
+    kani::cover!(c1, "sizes differ");
 }
